@@ -16,9 +16,18 @@ RULE = ("Hypothesis-generated texts / byte strings / cut points / charsets / chu
         "seek offsets / content types, each compared with an independent model (whole-string "
         "decode, slice of the data, structural equality); texts up to 8192 repetitions long (beyond one chunk), as_text() "
         "after an abandoned, partly consumed iter_text() of the same object, two iter_bytes() iterators of one stream "
-        "content obtained before either is consumed. Non-trivial: a cut inside a "
+        "content obtained before either is consumed. Bytes that are BOM-carrying / multi-byte text in ANOTHER charset than "
+        "the declared or default one, text types with further parameters and other subtypes (nothing is sniffed: the declared "
+        "charset, else ISO-8859-1, decides); file and stream contents also given a text type and read as_text() with "
+        "characters straddling 4096- and 1024-byte chunk boundaries; a second pass over a lazy stream content after the "
+        "stream was refilled and repositioned, == evaluated before and after a source change, unseekable streams where no "
+        "seek is requested, seek_whence without seek_offset, buffer_now as 0/1, files replaced (new inode) between passes, two "
+        "live / one abandoned iterator over a lazy file content, default type of content_from_file / attach_file, details "
+        "gathered under their own names when nothing collides, parameter values differing in letter case only; two small "
+        "exhaustive grids (stream_file_grid, undeclared_charset_grid) repeat the rare corners at every seed. Non-trivial: a cut inside a "
         "multi-byte character, or data length a positive multiple of chunk_size, or a seek "
-        "offset != 0, or >= 2 content-type parameters, or a snapshot taken before a mutation; "
+        "offset != 0, or >= 2 content-type parameters, or a snapshot taken before a mutation, or non-ASCII bytes that are text in "
+        "another charset than the declared one, or a text-typed file/stream read spanning several chunks; "
         "distinct = distinct canonical spec.")
 ASSUMPTIONS = [
     "arbitrary (possibly invalid) byte strings are decoded only with stateless charsets; for "
@@ -27,6 +36,21 @@ ASSUMPTIONS = [
     "values of printable characters without '\"' and '\\\\', no control characters, no RFC2047 "
     "encoded-words, charset values without ','",
     "files are seeked only to valid positions (the OS rejects negative absolute offsets)",
+    "timing of the seek of a lazy stream content: with an absolute seek_offset every iterator returned by iter_bytes() "
+    "yields the bytes from that offset when it is consumed, also when a sibling iterator obtained at the same time was "
+    "drained first (clause stream-second-iterator) - i.e. the seek happens when reading starts, not when iter_bytes() is "
+    "called; the statement does not spell out two live iterators over one stream, seeded change C16-r4-1 rests on this reading",
+    "'reading lazily' is observed as: no read of any kind (read, read1, readinto, readline, iteration, getvalue) on the "
+    "stream before iter_bytes() unless buffer_now; with buffer_now some read, or a moved stream position, at construction. "
+    "A seek or a seekable()/tell() probe at construction is not counted as reading (its effects show in the byte clauses)",
+    "the chunk-size limit of calls that pass no chunk_size is the default found in the called function's signature "
+    "(DEFAULT_CHUNK_SIZE), not the literal 4096",
+    "iter_text() on a non-text type raises the documented ValueError at the call or at the first step of the iterator",
+    "ContentType equality is structural on values as written: letter case of a (non-charset) parameter value matters; two "
+    "spellings of one charset (utf8 / UTF-8) are never compared, so a change treating them as equal is not reported",
+    "gather_details keeps a detail's name when no source name is present in the target (the disambiguated names of "
+    "colliding details are not modelled; their bytes are compared as a pool)",
+    "as_text() of file/stream data in BOM-carrying or stateful charsets is checked only for reads from offset 0 of real text",
 ]
 
 TEXT = st.text(st.characters(blacklist_categories=("Cs",)), max_size=40)
@@ -58,7 +82,7 @@ def s_bytes_case(draw):
     ct_b = draw(st.sampled_from(["text/plain", "application/octet-stream", "text/plain;charset=utf8"]))
     cuts = draw(st.lists(st.integers(0, 40), max_size=4))
     return {"chunks": chunks, "other": other, "ct_a": ct_a, "ct_b": ct_b, "cuts": cuts,
-            "buffer_now": draw(st.booleans())}
+            "buffer_now": draw(st.booleans()), "bn_int": draw(st.booleans())}
 
 
 def _ct(name):
@@ -84,7 +108,7 @@ def run_bytes(spec):
     def reader():
         calls.append(1)
         return iter(list(chunks))
-    r = content_from_reader(reader, _ct(spec["ct_a"]), spec["buffer_now"])
+    r = content_from_reader(reader, _ct(spec["ct_a"]), int(spec["buffer_now"]) if spec.get("bn_int") else spec["buffer_now"])
     if spec["buffer_now"]:
         if len(calls) != 1:
             vs.append(V("lazy", "reader-buffer_now", "reader called %d times at construction" % len(calls)))
@@ -101,10 +125,17 @@ def run_bytes(spec):
         src = [list(chunks)]
         lazy = content_from_reader(lambda: iter(list(src[0])), _ct(spec["ct_a"]), False)
         first = b"".join(lazy.iter_bytes())
+        # ... and in what it is equal to: equality is computed from the bytes of the moment
+        then = Content(_ct(spec["ct_a"]), lambda: [whole])
+        now = Content(_ct(spec["ct_a"]), lambda: [b"".join(later)])
+        eq_before = (lazy == then, then == lazy, lazy == now)
         src[0] = later
         second = b"".join(lazy.iter_bytes())
         if first != whole or second != b"".join(later):
             vs.append(V("lazy", "stale-second-pass", "a lazy content gave %r and then %r; its source yielded %r and then %r" % (first, second, whole, b"".join(later))))
+        eq_after = (lazy == then, then == lazy, lazy == now)
+        if eq_before != (True, True, False) or eq_after != (False, False, True):
+            vs.append(V("eq", "stale-after-source-change", "a lazy content compared (==old, old==, ==new) as %r while its source yielded the old bytes and as %r once it yielded the new ones" % (eq_before, eq_after)))
     # equality <=> type equal and bytes equal, whatever the chunking
     rechunked = _cut(whole, spec["cuts"])
     other_bytes = whole if spec["other"] is None else b"".join(spec["other"])
@@ -159,6 +190,14 @@ def run_text_rt(spec):
         back = e
     if back != d or j.content_type != JSON:
         vs.append(V("json-roundtrip", "json_content", "json round trip %r -> %r" % (d, back)))
+    class OwnStr(str):
+        """A str subclass (a lazily translated or marked-up string) is text."""
+    try:
+        sub_ok = text_content(OwnStr(s)).as_text() == s
+    except TypeError:
+        sub_ok = False
+    if not sub_ok:
+        vs.append(V("text-roundtrip", "str-subclass", "a str subclass does not round-trip through text_content"))
     try:
         text_content(s.encode("utf8"))
         vs.append(V("text-roundtrip", "bytes-accepted", "text_content accepted bytes"))
@@ -169,9 +208,18 @@ def run_text_rt(spec):
 
 
 # ------------------------------------------------------------------ as_text vs chunking
+FOREIGN = ["utf8", "utf-8-sig", "utf-16", "utf-32", "utf-16-le", "utf-16-be"]
+UNDECLARED = [None, None, "latin-1", "cp1252", "ascii", "ISO-8859-1"]
+# parameters other than charset on a text type (the shape of TracebackContent's type), other subtypes
+EXTRA_PARAMS = st.dictionaries(st.sampled_from(["format", "language", "delsp"]),
+                               st.sampled_from(["flowed", "python", "yes", "X y"]), max_size=2)
+SUBTYPE = st.sampled_from(["plain", "plain", "x-log", "x-traceback"])
+
+
 @st.composite
 def s_decode_case(draw):
-    if draw(st.booleans()):
+    which = draw(st.integers(0, 2))
+    if which == 0:
         # real text in any codec
         cs = draw(st.sampled_from(TEXT_CODECS + STATELESS + [None]))
         text = draw(ANYTEXT)
@@ -181,18 +229,47 @@ def s_decode_case(draw):
             text = "".join(ch for ch in text if ord(ch) < 0x80)
             data = text.encode(cs or "latin-1")
         kind = "text"
-    else:
+    elif which == 1:
         cs = draw(st.sampled_from(STATELESS + [None]))
         data = draw(st.one_of(st.binary(max_size=30),
                               st.lists(st.sampled_from([b"a", b"\xc3", b"\xa9", b"\xe4\xb8", b"\xad",
                                                         b"\xf0\x9f", b"\x98\x80", b"\xff", b"\x00"]),
                                        max_size=10).map(b"".join)))
         kind = "raw"
+    else:
+        # bytes that are (BOM-carrying / multi-byte) text in ANOTHER charset than the declared or default one:
+        # the declared charset decides, nothing is sniffed from the bytes
+        cs = draw(st.sampled_from(UNDECLARED))
+        data = draw(ANYTEXT).encode(draw(st.sampled_from(FOREIGN)))
+        kind = "foreign"
     cuts = draw(st.lists(st.integers(0, max(1, len(data))), max_size=6))
     return {"charset": cs, "data": data, "cuts": cuts, "kind": kind,
             "param_case": draw(st.sampled_from(["charset"])),
+            "extra": draw(EXTRA_PARAMS) if draw(st.booleans()) else {}, "subtype": draw(SUBTYPE),
             # an earlier iter_text() of the same object, advanced this many steps and then abandoned
             "abandon": draw(st.sampled_from([None, None, 0, 1, 2, 3]))}
+
+
+def _enum_decode():
+    """Undeclared / single-byte declared charsets over bytes that look like something else (a BOM, valid UTF-8),
+    with and without other parameters on the type: small enough to run completely at every seed."""
+    datas = [b"\xef\xbb\xbfabc", b"\xff\xfea\x00b\x00", b"\xfe\xff\x00a\x00b", b"\xff\xfe\x00\x00a\x00\x00\x00",
+             "\u00e9".encode("utf8"), "a\u4e2db".encode("utf8"), "\U0001f600".encode("utf8"), b"\xe9",
+             b"caf\xc3\xa9 \xe9", b"abc", b""]
+    for cs in (None, "latin-1", "cp1252", "ISO-8859-1"):
+        for data in datas:
+            for cuts in ([], [1], [2], [1, 2, 3]):
+                for extra, subtype in (({}, "plain"), ({"format": "flowed"}, "x-log"),
+                                       ({"language": "python", "format": "X y"}, "x-traceback")):
+                    yield {"charset": cs, "data": data, "cuts": cuts, "kind": "foreign", "param_case": "charset",
+                           "extra": extra, "subtype": subtype, "abandon": None}
+    # bytes that end inside a character: the decoder's final flush has to report them
+    for cs in ("utf8", "utf-8"):
+        for data in (b"a\xc3", b"\xe4\xb8", b"ab\xf0\x9f\x98"):
+            for cuts in ([], [1], [len(data) - 1]):
+                for abandon in (None, 1):
+                    yield {"charset": cs, "data": data, "cuts": cuts, "kind": "raw", "param_case": "charset",
+                           "extra": {}, "subtype": "plain", "abandon": abandon}
 
 
 def _cut_inside_char(data, cuts, cs):
@@ -215,11 +292,14 @@ def run_decode(spec):
     from testtools.content_type import ContentType
     vs = []
     cs, data = spec["charset"], spec["data"]
-    params = {} if cs is None else {"charset": cs}
+    params = dict(spec.get("extra") or {})
+    if cs is not None:
+        params["charset"] = cs
+    subtype = spec.get("subtype", "plain")
     chunks = _cut(data, spec["cuts"])
     if not data and spec.get("abandon") in (None, 0) and len(spec["cuts"]) % 2:
         chunks = []           # a content that yields no chunk at all (an empty file)
-    c = Content(ContentType("text", "plain", params), lambda: list(chunks))
+    c = Content(ContentType("text", subtype, dict(params)), lambda: list(chunks))
     eff = cs or "ISO-8859-1"
     try:
         want = data.decode(eff)
@@ -243,7 +323,7 @@ def run_decode(spec):
     if want is not UnicodeError:
         # as_text() is computed from what the source yields at that time: nothing is remembered from an earlier call
         src = [list(chunks)]
-        lazy = Content(ContentType("text", "plain", dict(params)), lambda: list(src[0]))
+        lazy = Content(ContentType("text", subtype, dict(params)), lambda: list(src[0]))
         first = lazy.as_text()
         src[0] = []
         if first != want or lazy.as_text() != "" or "".join(lazy.iter_text()) != "":
@@ -255,20 +335,23 @@ def run_decode(spec):
     if got2 != want:
         vs.append(V("as_text-chunking", "iter_text charset=%s" % eff, "iter_text differs: %r vs %r" % (got2, want)))
     # using a content (decoding it) must not change what it is equal to
-    twin = Content(ContentType("text", "plain", dict(params)), lambda: list(chunks))
-    if not (c == twin and twin == c) or c.content_type != ContentType("text", "plain", dict(params)):
+    twin = Content(ContentType("text", subtype, dict(params)), lambda: list(chunks))
+    if not (c == twin and twin == c) or c.content_type != ContentType("text", subtype, dict(params)):
         vs.append(V("eq", "after-as_text", "a content that has been decoded no longer equals a structurally equal, unused one"))
     nb = Content(ContentType("application", "octet-stream"), lambda: list(chunks))
     try:
-        nb.iter_text()
+        # (the documented ValueError may come at the call or - from a generator - at the first step)
+        list(nb.iter_text())
         vs.append(V("as_text-chunking", "non-text", "iter_text on a non-text type did not raise"))
     except ValueError:
         pass
     inside = _cut_inside_char(data, spec["cuts"], eff)
-    return Case(vs, inside, ["cut-inside-char" if inside else "cuts-at-boundaries",
+    foreign = spec["kind"] == "foreign" and any(b > 0x7f for b in data)
+    return Case(vs, inside or foreign, ["cut-inside-char" if inside else "cuts-at-boundaries",
                              "kind=" + spec["kind"], "cs=%s" % cs,
                              "undecodable" if want is UnicodeError else "decodable",
-                             "after-abandoned-iterator" if spec.get("abandon") else ""],
+                             "after-abandoned-iterator" if spec.get("abandon") else "",
+                             "other-params" if spec.get("extra") else ""],
                 {"chunks": chunks})
 
 
@@ -329,36 +412,130 @@ def run_interleaved(spec):
 
 # ------------------------------------------------------------------ stream / file
 class LoggedStream(io.BytesIO):
-    """BytesIO that logs reads/seeks and may legitimately return short reads (like a pipe,
-    a socket or a raw stream): at most ``short`` bytes per read when ``short`` is set."""
+    """BytesIO that logs every way of reading from it (read, read1, readinto, readline, iteration ...) and every
+    seek, may legitimately return short reads (like a pipe, a socket or a raw stream: at most ``short`` bytes per
+    read when ``short`` is set) and may be unseekable (``seekable=False``: seek/tell raise, like a pipe).  The
+    harness itself moves and refills it through the ``h_*`` methods, which are neither logged nor refused."""
 
-    def __init__(self, data, short=None):
+    def __init__(self, data, short=None, seekable=True):
         super().__init__(data)
         self.ops = []
         self.short = short
+        self.can_seek = seekable
+
+    def _n(self, n):
+        if self.short is not None and (n is None or n < 0 or n > self.short):
+            return self.short
+        return -1 if n is None else n
 
     def read(self, n=-1):
         self.ops.append(("read", n))
-        if self.short is not None and (n is None or n < 0 or n > self.short):
-            n = self.short
-        return super().read(n)
+        return super().read(self._n(n))
+
+    def read1(self, n=-1):
+        self.ops.append(("read", n, "read1"))
+        return super().read1(self._n(n))
+
+    def readall(self):
+        self.ops.append(("read", -1, "readall"))
+        return super().read(self._n(-1))
+
+    def readinto(self, b):
+        self.ops.append(("read", len(b), "readinto"))
+        got = super().read(self._n(len(b)))
+        b[:len(got)] = got
+        return len(got)
+
+    readinto1 = readinto
+
+    def readline(self, n=-1):
+        self.ops.append(("read", n, "readline"))
+        line = super().readline(-1 if n is None else n)
+        if self.short is not None and len(line) > self.short:
+            super().seek(self.short - len(line), 1)
+            line = line[:self.short]
+        return line
+
+    def readlines(self, hint=-1):
+        self.ops.append(("read", hint, "readlines"))
+        return super().readlines(hint)
+
+    def __next__(self):
+        self.ops.append(("read", -1, "next"))
+        return super().__next__()
+
+    def getvalue(self):
+        self.ops.append(("read", -1, "getvalue"))
+        return super().getvalue()
+
+    def getbuffer(self):
+        self.ops.append(("read", -1, "getbuffer"))
+        return super().getbuffer()
+
+    def seekable(self):
+        return self.can_seek
 
     def seek(self, off, whence=0):
         self.ops.append(("seek", off, whence))
+        if not self.can_seek:
+            raise io.UnsupportedOperation("underlying stream is not seekable")
         return super().seek(off, whence)
+
+    def tell(self):
+        if not self.can_seek:
+            raise io.UnsupportedOperation("underlying stream is not seekable")
+        return super().tell()
+
+    # -- harness side
+    def h_seek(self, pos):
+        io.BytesIO.seek(self, pos)
+
+    def h_tell(self):
+        return io.BytesIO.tell(self)
+
+    def h_replace(self, data, pos):
+        io.BytesIO.seek(self, 0)
+        io.BytesIO.truncate(self, 0)
+        io.BytesIO.write(self, data)
+        io.BytesIO.seek(self, pos)
+
+
+# real text, repeated beyond one default-sized chunk, in a charset whose characters straddle chunk boundaries
+BIG_TEXT = st.tuples(st.text(st.sampled_from("a\u00e9\u4e2d\U0001f600\x00"), min_size=1, max_size=4),
+                     st.sampled_from(["utf8", "utf8", "utf-16", "gb18030", "shift_jis"]),
+                     st.sampled_from([4096, 4097, 8192, 10000]))
+ARBITRARY_TEXT_CS = ["none", "utf8", "latin-1", "cp1252", "utf-8"]     # stateless: arbitrary bytes may be decoded
+
+
+def _big_text(t):
+    unit, cs, n = t
+    try:
+        one = unit.encode(cs)
+    except UnicodeError:
+        unit = "a\u00e9" if cs != "shift_jis" else "a\u4e2d"
+        one = unit.encode(cs)
+    reps = n // max(1, len(one)) + 1
+    return (unit * reps).encode(cs), cs
 
 
 @st.composite
 def s_stream_case(draw):
-    data = draw(st.one_of(st.binary(max_size=40), st.binary(max_size=40),
-                          st.integers(0, 6).flatmap(lambda k: st.binary(min_size=4 * k, max_size=4 * k)),
-                          # more than one chunk even at the default chunk size
-                          st.tuples(st.binary(min_size=1, max_size=8), st.sampled_from([4096, 4097, 8192, 10000])).map(lambda t: (t[0] * t[1])[:t[1]])))
-    chunk_size = draw(st.sampled_from([1, 2, 3, 4, 5, 8, 4096]))
+    text_cs = None
+    which = draw(st.integers(0, 4))
+    if which <= 1:
+        data = draw(st.binary(max_size=40))
+    elif which == 2:
+        data = draw(st.integers(0, 6).flatmap(lambda k: st.binary(min_size=4 * k, max_size=4 * k)))
+    elif which == 3:
+        # more than one chunk even at the default chunk size
+        data = draw(st.tuples(st.binary(min_size=1, max_size=8), st.sampled_from([4096, 4097, 8192, 10000])).map(lambda t: (t[0] * t[1])[:t[1]]))
+    else:
+        data, text_cs = _big_text(draw(BIG_TEXT))
+    chunk_size = draw(st.sampled_from([1, 2, 3, 4, 5, 8, 4096] if which != 4 else [4096, 4096, 1024, 5]))
     kind = draw(st.sampled_from(["stream", "file"]))
     whence = draw(st.sampled_from([0, 2] if kind == "file" else [0, 1, 2]))
-    prepos = draw(st.integers(0, len(data) + 2)) if kind == "stream" else 0
-    if draw(st.booleans()):
+    prepos = draw(st.integers(0, len(data) + 2)) if kind == "stream" and which != 4 else 0
+    if draw(st.booleans()) or which == 4:
         offset = None
     elif whence == 0:
         offset = draw(st.integers(0, len(data) + 3))
@@ -366,13 +543,77 @@ def s_stream_case(draw):
         offset = draw(st.integers(-len(data) if kind == "file" else -len(data) - 3, 3))
     else:
         offset = draw(st.integers(-prepos - 2, 4))
+    if text_cs is None and draw(st.booleans()):
+        text_cs = draw(st.sampled_from(ARBITRARY_TEXT_CS))
     return {"data": data, "chunk_size": chunk_size, "kind": kind, "whence": whence,
             "offset": offset, "prepos": prepos, "buffer_now": draw(st.booleans()),
             "mutate": draw(st.binary(max_size=8)),
             "short": draw(st.sampled_from([None, None, 1, 2, 3])) if kind == "stream" else None,
             "two_iterators": draw(st.booleans()), "fill_late": draw(st.booleans()),
             "via_attach_file": draw(st.booleans()),
-            "default_chunk": draw(st.booleans()) and chunk_size == 4096}
+            "default_chunk": draw(st.booleans()) and chunk_size == 4096,
+            # buffer_now given as 0 / 1 rather than False / True
+            "bn_int": draw(st.booleans()),
+            # a stream that cannot seek or tell (a pipe); only where no seek is requested
+            "seekable": draw(st.sampled_from([True, True, False])) or offset is not None or kind != "stream",
+            # seek_whence passed although seek_offset is None: "passed to seek() when seeking", so without effect
+            "whence_alone": draw(st.booleans()),
+            # where the harness leaves the (refilled) stream before a second pass over a lazy content
+            "prepos2": draw(st.integers(0, len(data) + 2)) if kind == "stream" and which != 4 else 0,
+            # the content also gets a text type: as_text() of what was read, against the whole-string decode
+            "text_cs": text_cs,
+            # lazy file contents: two iterators alive at once / one abandoned half-way; the file replaced (new
+            # inode) rather than rewritten in place before the last pass
+            "file_iters": draw(st.sampled_from([None, "two", "abandon"])),
+            "replace": draw(st.booleans())}
+
+
+def _stream_spec(**over):
+    spec = {"data": b"abcdefgh", "chunk_size": 3, "kind": "stream", "whence": 0, "offset": None, "prepos": 0,
+            "buffer_now": False, "mutate": b"XY", "short": None, "two_iterators": False, "fill_late": False,
+            "via_attach_file": False, "default_chunk": False, "bn_int": False, "seekable": True,
+            "whence_alone": False, "prepos2": 0, "text_cs": None, "file_iters": None, "replace": False}
+    spec.update(over)
+    return spec
+
+
+def _enum_stream():
+    """Corners that random cases reach too rarely to be caught at every seed."""
+    both = (False, True)
+    # characters straddling every boundary of a default-sized (and a 1024-byte) chunk, decoded from a stream / file
+    for text, cs in (("a" + "\u00e9" * 2500, "utf8"), ("\U0001f600" * 1500, "utf-16"), ("a" + "\u4e2d" * 2500, "gb18030")):
+        for kind in ("stream", "file"):
+            for bn in both:
+                for chunk, dflt in ((4096, True), (4096, False), (1024, False)):
+                    yield _stream_spec(data=text.encode(cs), text_cs=cs, kind=kind, buffer_now=bn, chunk_size=chunk,
+                                       default_chunk=dflt)
+    for bn in both:
+        for short in (None, 2):
+            # an explicit offset of 0 is a seek; relative to the current position it is none
+            for whence, prepos in ((0, 3), (0, 0), (1, 3), (2, 3), (2, 0)):
+                yield _stream_spec(offset=0, whence=whence, prepos=prepos, buffer_now=bn, short=short, prepos2=2)
+            # a whence without an offset changes nothing
+            for whence in (1, 2):
+                for prepos in (0, 2):
+                    yield _stream_spec(whence=whence, whence_alone=True, prepos=prepos, buffer_now=bn, short=short, prepos2=1)
+            # a stream that cannot seek, read from where it stands
+            for prepos in (0, 3):
+                for fill_late in both:
+                    yield _stream_spec(seekable=False, prepos=prepos, buffer_now=bn, short=short, fill_late=fill_late, prepos2=1)
+        yield _stream_spec(kind="file", whence=2, whence_alone=True, buffer_now=bn)
+        for kind in ("stream", "file"):
+            yield _stream_spec(kind=kind, buffer_now=bn, bn_int=True)
+            yield _stream_spec(kind=kind, buffer_now=bn, bn_int=True, offset=2)
+            yield _stream_spec(kind=kind, buffer_now=bn, text_cs="none", data=b"caf\xc3\xa9 \xe9")
+        yield _stream_spec(kind="file", buffer_now=bn, via_attach_file=True, bn_int=True)
+    # two iterators of one lazy stream content with an absolute offset, obtained before either is consumed
+    for offset, whence in ((2, 0), (0, 0), (-3, 2)):
+        for short in (None, 2):
+            yield _stream_spec(offset=offset, whence=whence, two_iterators=True, prepos=1, short=short, prepos2=3)
+    for iters in (None, "two", "abandon"):
+        for replace in both:
+            for offset in (None, 2):
+                yield _stream_spec(kind="file", file_iters=iters, replace=replace, offset=offset)
 
 
 def _model_start(n, prepos, offset, whence):
@@ -398,8 +639,36 @@ def _workdir():
     return _WORK[0]
 
 
+def _default_chunk_size(func):
+    """The chunk size ``func`` uses when none is passed, read from its signature (not assumed to be 4096)."""
+    import inspect
+    try:
+        d = inspect.signature(func).parameters["chunk_size"].default
+        if isinstance(d, int) and d > 0:
+            return d
+    except (KeyError, TypeError, ValueError):
+        pass
+    from testtools import content
+    return getattr(content, "DEFAULT_CHUNK_SIZE", 4096)
+
+
+class _Detailed:
+    def __init__(self):
+        self.details = {}
+
+    def addDetail(self, name, content):
+        self.details[name] = content
+
+
+def _decode_or_error(data, charset):
+    try:
+        return data.decode(charset)
+    except UnicodeError:
+        return UnicodeError
+
+
 def run_stream(spec):
-    from testtools.content import content_from_stream, content_from_file
+    from testtools.content import content_from_stream, content_from_file, attach_file
     from testtools.content_type import ContentType, UTF8_TEXT
     vs = []
     data, cs = spec["data"], spec["chunk_size"]
@@ -411,33 +680,35 @@ def run_stream(spec):
     if spec["offset"] is not None:
         kw["seek_offset"] = spec["offset"]
         kw["seek_whence"] = spec["whence"]
+    elif spec.get("whence_alone"):
+        kw["seek_whence"] = spec["whence"]
+    buffer_now = spec["buffer_now"]
+    bn = int(buffer_now) if spec.get("bn_int") else buffer_now
+    lazy = not buffer_now
     ct = ContentType("application", "octet-stream")
     tag = spec["kind"]
+    seekable = bool(spec.get("seekable", True)) or spec["offset"] is not None
     if spec["kind"] == "stream":
-        fill_late = spec.get("fill_late") and not spec["buffer_now"]
-        s = LoggedStream(b"" if fill_late else data, spec.get("short"))
-        s.seek(spec["prepos"])
-        s.ops.clear()
-        c = content_from_stream(s, ct, buffer_now=spec["buffer_now"], **kw)
-        if fill_late:
+        limit = _default_chunk_size(content_from_stream) if spec["default_chunk"] else cs
+        fill_late = spec.get("fill_late") and lazy
+        s = LoggedStream(b"" if fill_late else data, spec.get("short"), seekable)
+        s.h_seek(spec["prepos"])
+        c = content_from_stream(s, ct, buffer_now=bn, **kw)
+        reads_at_construction = [o for o in s.ops if o[0] == "read"]
+        moved = s.closed or s.h_tell() != spec["prepos"]
+        if fill_late and not s.closed:
             # nothing of the stream is looked at before the content is iterated: the data arrives only now
-            s.seek(0)
-            s.write(data)
-            s.seek(spec["prepos"])
-            s.ops.clear()
-        ops_at_construction = list(s.ops)
-        if spec["buffer_now"]:
-            if not any(o[0] == "read" for o in ops_at_construction):
+            s.h_replace(data, spec["prepos"])
+        if buffer_now:
+            if not reads_at_construction and not moved:
                 vs.append(V("lazy", "stream-buffer_now-noread", "buffer_now did not read at construction"))
             # later changes to the source must not matter
-            s.ops.clear()
-            s.seek(0)
-            s.truncate(0)
-            s.write(spec["mutate"])
-            s.ops.clear()
-        elif ops_at_construction:
-            vs.append(V("lazy", "stream-eager", "stream touched before iter_bytes: %r" % ops_at_construction))
-        if not spec["buffer_now"] and spec["offset"] is not None and spec["whence"] in (0, 2) and spec.get("two_iterators"):
+            if not s.closed:
+                s.h_replace(spec["mutate"], len(spec["mutate"]))
+        elif reads_at_construction:
+            vs.append(V("lazy", "stream-eager", "stream read before iter_bytes: %r" % reads_at_construction))
+        s.ops.clear()
+        if lazy and spec["offset"] is not None and spec["whence"] in (0, 2) and spec.get("two_iterators"):
             # two iterations of one content, both obtained before either is consumed: each seeks to the requested
             # (absolute) offset when it starts reading
             it1, it2 = c.iter_bytes(), c.iter_bytes()
@@ -447,40 +718,47 @@ def run_stream(spec):
                 vs.append(V("stream-bytes", "stream-second-iterator", "a second iterator obtained before the first was consumed gives %r, want %r" % (second, want)))
         else:
             chunks = list(c.iter_bytes())
-        if spec["buffer_now"] and s.ops:
+        if buffer_now and s.ops:
             vs.append(V("lazy", "stream-buffer_now-reread", "buffered content touched the stream again: %r" % s.ops))
+        if lazy and s.closed:
+            # a lazy content has to read the stream again at its next iteration: it cannot have closed it
+            vs.append(V("stream-bytes", "stream-closed", "iterating a lazy stream content closed the caller's stream"))
+        elif lazy:
+            # a lazy content reads its stream each time it is iterated: the stream holds something else now and
+            # stands somewhere else; nothing of the first pass is remembered
+            later = spec["mutate"] + data
+            p2 = min(spec.get("prepos2", 0), len(later) + 2)
+            s.h_replace(later, p2)
+            start2 = _model_start(len(later), p2, spec["offset"], spec["whence"])
+            again = b"".join(c.iter_bytes())
+            if again != later[start2:]:
+                vs.append(V("stream-bytes", "stream-second-pass", "the stream was refilled with %r and left at %d; a second pass over the lazy content gives %r, want %r" % (later[:60], p2, again[:60], later[start2:][:60])))
         d = content_from_stream(LoggedStream(data))
         if d.content_type != UTF8_TEXT:
             vs.append(V("default-type", "stream", "default content type is %r" % d.content_type))
     else:
+        limit = _default_chunk_size(content_from_file) if spec["default_chunk"] else cs
         path = os.path.join(_workdir(), "f")
         if os.path.exists(path):
             os.unlink(path)
-        if spec.get("via_attach_file") and spec["offset"] is None:
+        if spec.get("via_attach_file") and spec["offset"] is None and "seek_whence" not in kw:
             # the convenience wrapper hands chunk_size and buffer_now on positionally
-            from testtools.content import attach_file
-
-            class Detailed:
-                def __init__(self):
-                    self.details = {}
-
-                def addDetail(self, name, content):
-                    self.details[name] = content
-            holder = Detailed()
-            if spec["buffer_now"]:
+            limit = _default_chunk_size(attach_file) if spec["default_chunk"] else cs
+            holder = _Detailed()
+            if buffer_now:
                 with open(path, "wb") as f:
                     f.write(data)
-            attach_file(holder, path, "att", ct, 4096 if spec["default_chunk"] else cs, spec["buffer_now"])
+            attach_file(holder, path, "att", ct, limit, bn)
             with open(path, "wb") as f:
-                f.write(spec["mutate"] if spec["buffer_now"] else data)
+                f.write(spec["mutate"] if buffer_now else data)
             if list(holder.details) != ["att"] or holder.details["att"].content_type != ct:
                 vs.append(V("stream-bytes", "attach_file-detail", "attach_file registered %r" % (holder.details,)))
                 return Case(vs, True, ["attach_file"])
             c = holder.details["att"]
-        elif spec["buffer_now"]:
+        elif buffer_now:
             with open(path, "wb") as f:
                 f.write(data)
-            c = content_from_file(path, ct, buffer_now=True, **kw)
+            c = content_from_file(path, ct, buffer_now=bn, **kw)
             with open(path, "wb") as f:
                 f.write(spec["mutate"])
             if spec["mutate"] == b"":
@@ -488,45 +766,96 @@ def run_stream(spec):
         else:
             # lazily read: the file need not exist yet
             try:
-                c = content_from_file(path, ct, buffer_now=False, **kw)
+                c = content_from_file(path, ct, buffer_now=bn, **kw)
             except OSError as e:
                 vs.append(V("lazy", "file-eager", "content_from_file opened the file at construction: %r" % e))
                 return Case(vs, False, ["file"])
             with open(path, "wb") as f:
                 f.write(data)
         chunks = list(c.iter_bytes())
-        if not spec["buffer_now"]:
+        if lazy:
+            iters = spec.get("file_iters")
+            if iters == "two":
+                # two iterators alive at once: each reads the file for itself
+                it1, it2 = c.iter_bytes(), c.iter_bytes()
+                head = next(it1, b"")
+                two = b"".join(it2)
+                one = head + b"".join(it1)
+                if one != want or two != want:
+                    vs.append(V("stream-bytes", "file-two-iterators", "two iterators over one lazy file content, advanced in turn, give %r and %r, want %r" % (one[:60], two[:60], want[:60])))
+            elif iters == "abandon":
+                it3 = c.iter_bytes()
+                next(it3, None)
+                del it3             # dropped half-way
             again = b"".join(c.iter_bytes())
             if again != want:
                 vs.append(V("stream-bytes", "file-second-iteration", "second iter_bytes gives %r, want %r" % (again, want)))
             # a lazily read file is read when it is iterated: what the file holds *now*
             later = spec["mutate"] + data
-            with open(path, "wb") as f:
-                f.write(later)
+            if spec.get("replace"):
+                # ... also when it is another file under the same name by now (log rotation, atomic writers)
+                with open(path + ".new", "wb") as f:
+                    f.write(later)
+                os.replace(path + ".new", path)
+            else:
+                with open(path, "wb") as f:
+                    f.write(later)
             start_l = _model_start(len(later), 0, spec["offset"], spec["whence"])
             third = b"".join(c.iter_bytes())
             if third != later[start_l:]:
-                vs.append(V("stream-bytes", "file-stale-after-change", "the file changed to %r, a lazy content still yields %r (want %r)" % (later, third, later[start_l:])))
+                vs.append(V("stream-bytes", "file-stale-after-change", "the file changed to %r, a lazy content still yields %r (want %r)" % (later[:60], third[:60], later[start_l:][:60])))
+        # without a content type a file is UTF-8 text, as a stream is
+        dpath = os.path.join(_workdir(), "d")
+        with open(dpath, "wb") as f:
+            f.write(data)
+        dflt = content_from_file(dpath)
+        holder = _Detailed()
+        attach_file(holder, dpath)
+        attached = list(holder.details.values())
+        if dflt.content_type != UTF8_TEXT or len(attached) != 1 or attached[0].content_type != UTF8_TEXT:
+            vs.append(V("default-type", "file", "default content type is %r, attach_file registered %r" % (dflt.content_type, holder.details)))
+        elif b"".join(dflt.iter_bytes()) != data or b"".join(attached[0].iter_bytes()) != data:
+            vs.append(V("stream-bytes", "file-defaults", "content_from_file(path) / attach_file(obj, path) do not yield the file's bytes"))
     got = b"".join(chunks)
     if got != want:
         vs.append(V("stream-bytes", tag, "got %r, want data[%d:]=%r (spec offset=%r whence=%r prepos=%r)" % (
-            got, start, want, spec["offset"], spec["whence"], spec["prepos"])))
-    limit = 4096 if spec["default_chunk"] else cs
+            got[:60], start, want[:60], spec["offset"], spec["whence"], spec["prepos"])))
     if any(len(ch) == 0 for ch in chunks):
-        vs.append(V("stream-chunks", tag + "-empty", "an empty chunk was yielded: %r" % chunks))
+        vs.append(V("stream-chunks", tag + "-empty", "an empty chunk was yielded: %r" % chunks[:8]))
     if any(len(ch) > limit for ch in chunks):
-        vs.append(V("stream-chunks", tag + "-toolarge", "a chunk exceeds chunk_size=%d: %r" % (limit, chunks)))
-    if spec["buffer_now"]:
+        vs.append(V("stream-chunks", tag + "-toolarge", "a chunk exceeds chunk_size=%d: %r" % (limit, [len(ch) for ch in chunks][:8])))
+    if buffer_now:
         if b"".join(c.iter_bytes()) != want:
             vs.append(V("stream-bytes", tag + "-buffered-second", "buffered content changed between iterations"))
+    tcs = spec.get("text_cs")
+    if tcs and (tcs in ARBITRARY_TEXT_CS or start == 0):
+        # the same read with a text type: as_text() is the whole-string decode of what was to be read, wherever
+        # the chunk boundaries fell (for BOM-carrying / stateful charsets only from the very beginning)
+        tct = ContentType("text", "plain", {} if tcs == "none" else {"charset": tcs})
+        eff = "ISO-8859-1" if tcs == "none" else tcs
+        if spec["kind"] == "stream":
+            ts = LoggedStream(data, spec.get("short"), seekable)
+            ts.h_seek(spec["prepos"])
+            tc = content_from_stream(ts, tct, buffer_now=bn, **kw)
+        else:
+            tc = content_from_file(dpath, tct, buffer_now=bn, **kw)
+        want_t = _decode_or_error(want, eff)
+        try:
+            got_t = tc.as_text()
+        except UnicodeError:
+            got_t = UnicodeError
+        if got_t != want_t:
+            vs.append(V("as_text-chunking", tag + "-as_text", "as_text() of %d bytes read in chunks of %d (charset %s) gives %r, whole decode gives %r" % (
+                len(want), limit, eff, got_t if got_t is UnicodeError else got_t[-30:], want_t if want_t is UnicodeError else want_t[-30:])))
     nt = (len(want) > 0 and len(want) % limit == 0) or (spec["offset"] not in (None, 0)) or \
-         (spec["kind"] == "stream" and spec["prepos"] > 0)
+         (spec["kind"] == "stream" and spec["prepos"] > 0) or bool(tcs and len(want) > limit)
     return Case(vs, nt, ["kind=" + tag, "buffer_now=%s" % spec["buffer_now"],
                          "multiple-of-chunk" if len(want) > 0 and len(want) % limit == 0 else "ragged",
                          "whence=%s" % (spec["whence"] if spec["offset"] is not None else None),
                          "start>len" if start > len(data) else "start<=len",
-                         "short-reads" if spec.get("short") else "full-reads"],
-                {"chunks": chunks[:8]})
+                         "short-reads" if spec.get("short") else "full-reads",
+                         "unseekable" if not seekable else "", "text-type" if tcs else ""],
+                {"chunks": chunks[:8] if len(data) < 200 else [len(ch) for ch in chunks[:8]]})
 
 
 # ------------------------------------------------------------------ content type round trip
@@ -579,6 +908,9 @@ def run_ct(spec):
                 ("extra-parameter", ContentType(spec["type"], spec["subtype"], dict(spec["params"], zzextra="1")))]
     for k in list(spec["params"])[:2]:
         variants.append(("parameter-value", ContentType(spec["type"], spec["subtype"], dict(spec["params"], **{k: spec["params"][k] + "x"}))))
+        if k != "charset" and spec["params"][k].swapcase() != spec["params"][k]:
+            # parameter values are case-sensitive (two spellings of one charset are left alone, see ASSUMPTIONS)
+            variants.append(("parameter-value-case", ContentType(spec["type"], spec["subtype"], dict(spec["params"], **{k: spec["params"][k].swapcase()}))))
         fewer = dict(spec["params"])
         del fewer[k]
         variants.append(("missing-parameter", ContentType(spec["type"], spec["subtype"], fewer)))
@@ -586,6 +918,11 @@ def run_ct(spec):
         if ct == other_ct or other_ct == ct or not (ct != other_ct):
             vs.append(V("ct-roundtrip", "eq-" + what, "content types differing in %s compare equal: %r / %r" % (what, ct, other_ct)))
             break
+        if what == "parameter-value-case":
+            from testtools.content import Content
+            if Content(ct, lambda: [b"x"]) == Content(other_ct, lambda: [b"x"]):
+                vs.append(V("eq", "type-value-case", "contents of equal bytes whose types differ in the letter case of a parameter value compare equal: %r / %r" % (ct, other_ct)))
+                break
     if not (ct == ContentType(spec["type"], spec["subtype"], dict(spec["params"]))):
         vs.append(V("ct-roundtrip", "eq", "structurally equal content types compare unequal"))
     other = ContentType(spec["type"], spec["subtype"] + "x", dict(spec["params"]))
@@ -649,6 +986,13 @@ def run_snap(spec):
     pool = sorted(b"".join(c.iter_bytes()) for c in new.values())
     if pool != sorted(expected.values()):
         vs.append(V("snapshot", "gather-bytes", "gathered bytes %r != snapshot of source %r" % (pool, sorted(expected.values()))))
+    if not (set(spec["source"]) & set(spec["target"])):
+        # nothing to disambiguate: every detail is gathered under its own name
+        for n in sorted(expected):
+            if n not in target or b"".join(target[n].iter_bytes()) != expected[n]:
+                vs.append(V("snapshot", "gather-names", "detail %r (bytes %r) was gathered as %r" % (
+                    n, expected[n], {k: b"".join(v.iter_bytes()) for k, v in new.items()})))
+                break
     for n, c in new.items():
         if c.content_type != ct:
             vs.append(V("snapshot", "gather-type", "gathered detail lost its content type"))
@@ -666,6 +1010,13 @@ def subchecks(tier):
         Sub("as_text_chunking", run_decode, s_decode_case(), 3000 if q else 300000),
         Sub("interleaved_decoding", run_interleaved, s_interleaved(), 1000 if q else 60000),
         Sub("stream_file", run_stream, s_stream_case(), 2000 if q else 200000),
+        Sub("stream_file_grid", run_stream, enum=_enum_stream, enum_complete=True,
+            note="corners of content_from_stream/file: characters straddling 4096/1024-byte chunk boundaries decoded from a stream "
+                 "or file, offset 0 on a pre-positioned stream, whence without offset, unseekable streams, buffer_now as 0/1, "
+                 "replaced files and concurrent / abandoned file iterators"),
+        Sub("undeclared_charset_grid", run_decode, enum=_enum_decode, enum_complete=True,
+            note="no / single-byte declared charset over bytes that carry a BOM or are valid UTF-8, with and without other "
+                 "parameters on the text type"),
         Sub("content_type_roundtrip", run_ct, s_ct_case(), 2000 if q else 200000),
         Sub("snapshots", run_snap, s_snap_case(), 1000 if q else 60000),
         Sub("content_type_fuzz", run_ct, custom=fuzz_custom("props.c16", "content_type_roundtrip", "testtools.testresult.real,testtools.content_type", 30000),
